@@ -463,7 +463,10 @@ fn check_balance<'ctx>(
         "balance before rounding in txn: {}",
         balance.as_inline_display()
     );
-    let balance = balance.round(ctx);
+    let mut balance = balance.round(ctx);
+    // Commodities which sum up to zero are balanced,
+    // only non-zero commodities matter for the rest of the check.
+    balance.remove_zero_entries();
     if balance.is_zero() {
         return Ok(());
     }
